@@ -4,7 +4,7 @@
 (* failure, late starts).  Dedup / delivery steps are not commands (they run eagerly).       *)
 EXTENDS MC_Runtime, Json, IOUtils, SequencesExt
 VARIABLES hist, done
-gvars == <<store, nw, wpend, watchCh, ddpc, ddev, mloc, m, dlpc, dlkey, cache, boot, bsent, started,
+gvars == <<store, nw, wpend, watchCh, ddpc, ddev, mloc, m, dlpc, dlkey, cache, boot, bsent, started, alt,
            ech, cpc, robs, queue, qpc, qitem, qobs, need, faults, hist, done>>
 GenDepth == IF "GEN_DEPTH" \in DOMAIN IOEnv THEN atoi(IOEnv.GEN_DEPTH) ELSE 80
 Cmd(c, k, id, how, ctrl, fail) == [c |-> c, k |-> k, id |-> id, how |-> how, ctrl |-> ctrl, fail |-> fail]
@@ -17,9 +17,10 @@ GNext ==
   \/ (DDTake \/ DDAcquire \/ DDDrain \/ DLTake \/ DLReturn \/ DLTrigger) /\ UNCHANGED <<hist, done>>
   \/ \E c \in Ctrls : (CWake(c) \/ QGet(c)) /\ UNCHANGED <<hist, done>>
   \/ \E c \in Ctrls : (CRead(c) \/ QRun(c)) /\ Rec(Cmd("step", "", 0, "", c, FALSE))
+  \/ \E c \in Ctrls : CUpdate(c) /\ Rec(Cmd("update", "", 0, "", c, FALSE))
   \/ \E c \in Ctrls : (CFail(c) \/ QFail(c)) /\ Rec(Cmd("step", "", 0, "", c, TRUE))
   \/ \E c \in Ctrls : StartLate(c) /\ Rec(Cmd("start", "", 0, "", c, FALSE))
-CfgJson == [c \in Ctrls |-> [fl |-> Cfg[c].fl, late |-> Cfg[c].late, ins |-> SetToSeq(Cfg[c].ins)]]
+CfgJson == [c \in Ctrls |-> [fl |-> Cfg[c].fl, late |-> Cfg[c].late, ins |-> SetToSeq(Cfg[c].ins), alt |-> SetToSeq(Alt[c])]]
 Finish == /\ ~done /\ PrintT(<<"BEH", ToJson([cfg |-> CfgJson, cached |-> SetToSeq(Cached), cmds |-> hist])>>)
           /\ done' = TRUE /\ UNCHANGED vars /\ UNCHANGED hist
 GenInit == Init /\ hist = <<>> /\ done = FALSE
